@@ -54,7 +54,7 @@ def rules_of(pid):
             rs.append(f[0])
     return rs
 
-INTERP = {"T-LEX", "T-PREC", "T-INFIX", "T-PRIMARY", "T-INDEX", "T-FUNC", "T-DELIMS", "T-LOOPS", "D-DISPATCH", "E-OPCHAIN", "E-TOINT", "E-TYPE-FIRST", "E-SCOPE-CHAIN", "E-NODESETS", "E-TRUTHY", "A-ERRMAP", "A-ERR-IS", "A-API-SHAPE", "A-NIL-RESULT", "E-PRUNE", "E-SELECTOR-NULL", "E-FILTER-GUARDS-RHS", "E-TIES", "E-FLOATPAIR", "E-PARSE-STRICT", "P-DECODE", "E-EXHAUST", "E-ELEMTESTS", "E-EXTREMES", "E-MAKE-CAP", "E-DIRECTION", "T-FUNC-NOPANIC", "P-JSON-DECODE", "E-EACH-ONCE", "E-CONTAINER-KIND", "T-DECODER", "E-COERCION-TABLE", "E-CLAMP-SPEC"}
+INTERP = {"T-LEX", "T-PREC", "T-INFIX", "T-PRIMARY", "T-INDEX", "T-FUNC", "T-DELIMS", "T-LOOPS", "D-DISPATCH", "E-OPCHAIN", "E-TOINT", "E-TYPE-FIRST", "E-SCOPE-CHAIN", "E-NODESETS", "E-TRUTHY", "A-ERRMAP", "A-ERR-IS", "A-API-SHAPE", "A-NIL-RESULT", "E-PRUNE", "E-SELECTOR-NULL", "E-FILTER-GUARDS-RHS", "E-TIES", "E-FLOATPAIR", "E-PARSE-STRICT", "P-DECODE", "E-EXHAUST", "E-ELEMTESTS", "E-EXTREMES", "E-MAKE-CAP", "E-DIRECTION", "T-FUNC-NOPANIC", "P-JSON-DECODE", "E-EACH-ONCE", "E-CONTAINER-KIND", "T-DECODER", "E-COERCION-TABLE", "E-CLAMP-SPEC", "E-FROMITEMS"}
 
 def technique(rs):
     interp = [r for r in rs if r in INTERP]
@@ -91,7 +91,7 @@ m = {
  "version": 1,
  "setup_cmd": "./setup.sh",
  "hooks": {"guard": "verif", "enable": "none needed: the checks are static analyses and execute nothing from /repo; no hook commits exist", "baseline_off_cmd": "cd /repo && go test -count=1 ./...", "source_commits": [], "add_only": True},
- "engines": [{"name": "jmescheck", "path": "/verif/checker", "serves_properties": sorted(P), "kind_free_text": "Go program (go/packages + go/types + go/ssa + call graph, x/tools v0.50.0, go1.26.8): 99 repository-specific rules, 38 of them clients of a path-enumerating abstract interpreter over SSA (absint.go); obligations keyed by rule+construct; known-findings file; in-memory mutant self-test (479 independently written breaking changes must fire; 240 behaviour-preserving refactorings are re-applied in the thorough tier and every rule is expected to stay silent on them)"}],
+ "engines": [{"name": "jmescheck", "path": "/verif/checker", "serves_properties": sorted(P), "kind_free_text": "Go program (go/packages + go/types + go/ssa + call graph, x/tools v0.50.0, go1.26.8): 100 repository-specific rules, 39 of them clients of a path-enumerating abstract interpreter over SSA (absint.go); obligations keyed by rule+construct; known-findings file; in-memory mutant self-test (479 independently written breaking changes must fire; 240 behaviour-preserving refactorings are re-applied in the thorough tier and every rule is expected to stay silent on them)"}],
  "checks": checks,
  "not_applicable": [],
  "notes": "All 20 properties are claimed at level 'other': each check decides named structural clauses (see level_claimed.text) and states what it does not decide. Clauses for which static analysis is not applicable here: values computed by helpers (C01, C02, C05, C13, C20); composition of the per-function productions into the whole recursive language (C04); the walk over the characters of a string slice and machine wrap-around at the 64-bit limits (C12; the clamping arithmetic on arrays is decided); general bounds safety (C03); value-level identities (C17, C18); polynomial degree (C09); actual interleavings (C07 is decided by absence of shared writes). quick = host architecture, CHA call graph, quick mutants; thorough = also GOARCH=386 and arm64, VTA call graph, full mutant corpus plus the neutral-refactoring corpus (every rule must stay silent on it).",
